@@ -1,4 +1,9 @@
 import MpsProofs.Blame
+import MpsProps.Src.SrcCmpKeygen
+import MpsProps.Src.SrcCmpSign
+import MpsProps.Src.SrcCmpPresign
+import MpsProps.Src.SrcFrostKeygen
+import MpsProps.Src.SrcFrostSign
 import MpsProps.HandlerSrc
 import MpsProps.C04Byz
 import MpsGen.Session
